@@ -177,6 +177,10 @@ def run(ctx):
     t0 = time.time()
     part = pmap(c07.template_shard, [(seed, thorough, i, 64, nstates, 60, False, ORACLE) for i in range(64)])
     ctx.space("templates-nohazard", part, t0)
+    t0 = time.time()
+    part = pmap(c07.long_shard, [(seed, k, False, ORACLE) for k in range(len(c07.long_programs(seed)))])
+    ctx.space("long-runs-nohazard", part, t0, programs=[n for n, _p, _k in c07.long_programs(seed)])
+    ctx.require("run-longer-than-256-cycles", "run-longer-than-2000-cycles")
     pipecmp.fixed_point(ctx, seed, False, False, 12, "fixed-point-F12-nohazard")
     if thorough:
         pipecmp.fixed_point(ctx, seed, True, False, 12, "fixed-point-F16-nohazard")
